@@ -475,6 +475,11 @@ func genConnWith(r *core.Rand, names []string, hf *hostsFile) *connCase {
 	if hf != nil {
 		cc.Mode = hf.mode
 	}
+	if cc.Mode != "mitm" && r.Chance(35) {
+		// every configuration also runs served through martian's http.Handler (no interception there)
+		// (with the day-granular time frames only: the frame families are about the clock, not about the serving path)
+		cc.Server, cc.Frames = "handler", ""
+	}
 	n := r.Range(1, 4)
 	if cc.Mode == "mitm" {
 		// some requests before the tunnel, then a CONNECT that has a good chance of being accepted,
@@ -501,4 +506,79 @@ func genConnWith(r *core.Rand, names []string, hf *hostsFile) *connCase {
 		cc.Items = append(cc.Items, genItem(r, names, false, i == n-1, hf))
 	}
 	return cc
+}
+
+// targetMatrix: the target forms (origin-form, absolute-form, CONNECT authority) crossed with every host class,
+// both serving paths and both routes, under the host controls alone and together with the others: one request per
+// connection whose credentials are right and whose clock is inside the frame, so that the host controls decide.
+func targetMatrix(r *core.Rand, names []string) []*connCase {
+	var local []string
+	for _, n := range names {
+		if strings.Contains(n, ":") {
+			n = "[" + n + "]"
+		}
+		local = append(local, n)
+	}
+	classes := []struct {
+		label string
+		hosts []string
+	}{
+		{"host-routed", routedHosts}, {"host-denied", deniedHosts}, {"host-near-denied", nearDeniedHosts}, {"host-localhost-name", local},
+		{"host-loopback-literal", loopbackLiterals}, {"host-unspecified-canonical", unspecCanonical},
+		{"host-unspecified-noncanonical", unspecNonCanonical}, {"host-other-literal", otherLiterals},
+	}
+	var out []*connCase
+	for _, server := range []string{"", "handler"} {
+		for _, mode := range []string{"direct", "upstream"} {
+			for _, mask := range []int{ctlLocal, ctlDeny, ctlLocal | ctlDeny | ctlAuth, ctlLocal | ctlDeny | ctlAuth | ctlTime} {
+				for _, form := range []string{"origin-form", "absolute-form", "authority-form"} {
+					for _, cl := range classes {
+						host, label := core.Pick(r, cl.hosts), cl.label
+						if cl.label == "host-localhost-name" && r.Bool() {
+							host, label = randCase(r, host), "host-localhost-name-case"
+						}
+						cc := &connCase{Kind: "conn", Mask: mask, TimeOpen: true, Mode: mode, Server: server}
+						cc.Items = []item{matrixItem(r, host, label, form, mask&ctlAuth != 0)}
+						out = append(out, cc)
+					}
+				}
+			}
+		}
+	}
+	return out
+}
+
+func matrixItem(r *core.Rand, host, label, form string, auth bool) item {
+	id := fmt.Sprintf("c04-%d-%x", idSeq.Add(1), r.U64()&0xffffff)
+	label += "," + form + ",matrix"
+	if form == "authority-form" {
+		fs := []rig.Field{{Name: "Host", Value: host + ":443"}, {Name: "Case-Id", Value: id}}
+		if auth {
+			fs = append(fs, rightAuthField())
+		}
+		return item{Connect: &reqmodel.ConnectReq{Authority: host + ":443", Minor: 1, Fields: fs}, Label: label + ",connect"}
+	}
+	if r.Bool() || strings.HasPrefix(host, "[") && !strings.HasSuffix(host, "]") {
+		host += ":" + core.Pick(r, []string{"80", "8080", "443", "3000"})
+	} else {
+		label += ",no-port"
+	}
+	var q *reqmodel.Request
+	for {
+		q = reqmodel.GenRequest(r, reqmodel.GenOpts{Host: host, Scheme: "http", Last: false, ID: id, AllowBody: false})
+		if q.Absolute == (form == "absolute-form") {
+			break
+		}
+	}
+	var fs []rig.Field
+	for _, f := range q.Fields {
+		if !strings.EqualFold(f.Name, "Proxy-Authorization") {
+			fs = append(fs, f)
+		}
+	}
+	if auth {
+		fs = append(fs, rightAuthField())
+	}
+	q.Fields = fs
+	return item{Req: q, Label: label}
 }
